@@ -57,7 +57,7 @@ def check_case(case, ctx):
     try:
         im = base.mk_inmem(g, latlon=latlon)
         try:
-            sm = base.mk_sqlite(g, d, latlon=latlon)
+            sm = base.mk_sqlite(g, d, latlon=latlon, plan=case.get("load_plan"))
         except Exception as e:  # noqa
             if base.is_repo_exception(e) or type(e).__module__.startswith("sqlite3"):
                 raise Violation("load", f"loading the graph into SqliteMap raised {type(e).__name__}: {e}")
@@ -76,6 +76,13 @@ def check_case(case, ctx):
     if any(p[0] in (box[0], box[2]) or p[1] in (box[1], box[3]) for p in loc.values()):
         classes.append("node-on-box-border")
     classes.append("match:" + res)
+    if case.get("load_plan"):
+        classes.append("sqlite-loaded-call-by-call")
+        if any(o[0] == "node_again" for o in case["load_plan"]):
+            classes.append("load:repeated-node")
+        ee = [(o[1], o[2]) for o in case["load_plan"] if o[0] == "edge"]
+        if len(set(ee)) < len(ee):
+            classes.append("load:repeated-edge")
     ctx.record(case, nontrivial, classes, {"nodes": len(loc), "edges": len(edges), "in_box": len(inside)})
 
 
@@ -176,5 +183,8 @@ def strategy(tier):
             from .. import geomsph as gs
             lo, hi = gs.local_to_latlon(org, y0 * unit, x0 * unit), gs.local_to_latlon(org, y1 * unit, x1 * unit)
             case["box"] = [lo[0], lo[1], hi[0], hi[1]]
+        if gen.chance(draw, 4):
+            # the SQLite map is loaded call by call (per-call flags, repeated nodes/edges, re-index calls) instead of in bulk
+            case["load_plan"] = draw(gen.load_plan(case["graph"]))
         return case
     return _s()
